@@ -7,5 +7,6 @@ TraceTrees   == {"o00000", "o00001", "o00002"}
 TraceAcl     == {"acl"}
 TraceKv      == {"kv"}
 TraceChanges == {"c1", "c2", "c3", "c4"}
+TraceNoSpace == {}
 TraceBudget  == B(100000, 100000, 100000, 100000, 100000)
 =============================================================================
